@@ -21,6 +21,9 @@ type c06 struct {
 	distinct map[string]bool
 	samples  []interface{}
 	byRule   map[string]int
+	// the result of GetWeights for the previous committee, and that committee's weights
+	prevWeights []primitives.MemberWeight
+	prevWs      []uint64
 }
 
 func (c *c06) bad(rule, format string, a ...interface{}) {
@@ -93,6 +96,18 @@ func (c *c06) vector(ws []uint64, rng *rand.Rand, kind string) {
 	Q := new(big.Int).Sub(W, F)
 	cm := members(ws)
 	mw := quorum.GetWeights(cm)
+	// the weights handed out for the previous committee are still that committee's weights (a result that aliases a shared
+	// buffer changes under its holder when the next committee is evaluated)
+	if c.prevWeights != nil {
+		c.evals++
+		for i := range c.prevWeights {
+			if i >= len(c.prevWs) || uint64(c.prevWeights[i]) != c.prevWs[i] {
+				c.bad("weights-of-one-committee-changed-by-evaluating-another", "GetWeights(%v) returned %v; after GetWeights(%v) the first result reads %v", c.prevWs, c.prevWs, ws, c.prevWeights)
+				break
+			}
+		}
+	}
+	c.prevWeights, c.prevWs = mw, append([]uint64{}, ws...)
 	gotF := quorum.CalcByzMaxWeight(mw)
 	gotQ := quorum.CalcQuorumWeight(mw)
 	c.evals += 2
